@@ -14,5 +14,5 @@ CONSTANTS
   F6Quirk = FALSE
   F7Quirk = FALSE
   PoorShare = 0
-INVARIANTS NoError RevLogMatches RevokedIsLoggedOrCurrent EveryBroadcastableIsKnown
+INVARIANTS NoError RevLogMatches RevokedIsLoggedOrCurrent EveryBroadcastableIsKnown WatcherClassifies
 CHECK_DEADLOCK FALSE
